@@ -164,7 +164,7 @@ def run_property(pid, tier, seed=0):
     from . import kani as KANI
     from . import cex as CEX
     kres = dict(results=[], violations=[], undecided=[], wall_s=0.0, checks=0, harnesses=0)
-    if cfg.get('kani', True):
+    if cfg.get('kani', True) and not os.environ.get('BNV_NO_KANI'):
         try:
             kres = KANI.run_property(pid, tier, seed)
         except Exception as ex:
